@@ -211,8 +211,20 @@ def gen_oracle_case(rng, url_names):
         d["subdirs"].append(dict(name="bread", readme=None, recipes=[dict(file="loaf.md", title="Loaf", servings=2, links=[])], subdirs=[], assets=[]))
         d["recipes"].append(dict(file="bread#2.md", title="Second bread", servings=2, links=[]))
         d["recipes"].append(dict(file="bread?x.md", title="Third bread", servings=None, links=[]))
+    M = rng.randint(2, 4)
+    if rng.random() < 0.15:
+        # recipes written for ten or more (two-digit serving counts)
+        M = rng.choice([10, 12])
+        for rel, dd in gen_site.walk(d):
+            for r in dd["recipes"]:
+                if r["servings"] is not None and rng.random() < 0.6:
+                    r["servings"] = rng.choice([10, M, 9, 2])
     gen_links(rng, d)
-    return d, rng.randint(2, 4)
+    # a readme whose only local reference is an image
+    for rel, dd in gen_site.walk(d):
+        if dd["readme"] and dd["assets"] and rng.random() < 0.5:
+            dd["readme"]["links"] = [("Ionly%s" % abs(hash(rel)) , quote(dd["assets"][0]["file"]), ("asset", (rel + "/" if rel else "") + dd["assets"][0]["file"]))]
+    return d, M
 
 
 def check_site(d, M):
